@@ -17,7 +17,7 @@ pub struct Case {
 }
 
 /// Objects the writer deliberately regenerates/drops (cross-reference bookkeeping): outside the domain.
-fn sanitise(doc: &mut ADoc, rep: &mut CaseReport) {
+pub fn sanitise(doc: &mut ADoc, rep: &mut CaseReport) {
     for (_, _, o) in doc.objects.iter_mut() {
         if let AObj::Dict(d) | AObj::Stream(d, _) = o {
             let before = d.len();
@@ -45,7 +45,7 @@ fn needs_escape(o: &AObj) -> bool {
     found
 }
 
-fn classify_labels(doc: &ADoc, xs: bool, rep: &mut CaseReport) {
+pub fn classify_labels(doc: &ADoc, xs: bool, rep: &mut CaseReport) {
     let mut has_stream = false;
     let mut depth = 0;
     let mut esc = false;
@@ -201,7 +201,7 @@ pub fn sweep_items() -> Vec<SweepCase> {
     items
 }
 
-fn doc_opts(run: &Run) -> DocOpts {
+pub fn doc_opts(run: &Run) -> DocOpts {
     let mut o = DocOpts::default();
     if run.tier == crate::engine::Tier::Thorough {
         o.obj.max_str = 96;
